@@ -32,7 +32,7 @@ func (g *gen) flags(allPct int) int {
 	return flagChoices[g.r.Intn(len(flagChoices))]
 }
 
-var amounts = []int{0, 1, 1, 2, 3, 5, 8, 1000}
+var amounts = []int{0, 1, 1, 2, 3, 5, 8, 1 << 40}
 
 // gx is the generation context of a node list.
 type gx struct {
@@ -74,7 +74,7 @@ func (g *gen) node(x gx) *Node {
 		}
 		w = []int{1, 0, 1, 0, 44, 4, 22, 2, 1, 0, 3}
 	} else {
-		w = []int{22, 6, 12, 8, 18, 4, 16, 2, 1, 7, 5}
+		w = []int{22, 6, 12, 8, 18, 4, 16, 2, 1, 6, 12}
 	}
 	if x.h {
 		w[7] = 8
@@ -175,16 +175,42 @@ func (g *gen) node(x gx) *Node {
 		}
 		return &Node{Op: nNative, Fl: fl, Nat: nat}
 	default:
-		switch x := g.r.Intn(10); {
-		case x < 3:
-			return &Node{Op: nNative, Fl: g.flags(90), Nat: &NatOp{Kind: natSetFee, Val: g.r.Range(1, 5000)}}
-		case x < 6:
-			return &Node{Op: nNative, Fl: g.flags(90), Nat: &NatOp{Kind: natBlock, Val: plainAccounts[g.r.Intn(len(plainAccounts))]}}
-		case x < 8 || g.deploys >= 3:
-			return &Node{Op: nNative, Fl: g.flags(90), Nat: &NatOp{Kind: natUnblock, Val: plainAccounts[g.r.Intn(len(plainAccounts))]}}
-		default:
+		fl := g.flags(90)
+		mk := func(nat *NatOp) *Node { return &Node{Op: nNative, Fl: fl, Nat: nat} }
+		switch v := g.r.Intn(30); {
+		case v < 3:
+			return mk(&NatOp{Kind: natSetFee, Val: g.r.Range(1, 5000)})
+		case v < 6:
+			return mk(&NatOp{Kind: natBlock, Val: plainAccounts[g.r.Intn(len(plainAccounts))]})
+		case v < 8:
+			return mk(&NatOp{Kind: natUnblock, Val: plainAccounts[g.r.Intn(len(plainAccounts))]})
+		case v < 10 && g.deploys < 3:
 			g.deploys++
-			return &Node{Op: nNative, Fl: g.flags(90), Nat: &NatOp{Kind: natDeploy, Val: g.r.Intn(numAux)}}
+			return mk(&NatOp{Kind: natDeploy, Val: g.r.Intn(numAux)})
+		case v < 12:
+			return mk(&NatOp{Kind: natUpdate})
+		case v < 13 && x.c == 3:
+			return mk(&NatOp{Kind: natDestroy})
+		case v < 15:
+			return mk(&NatOp{Kind: natDesignate, To: roles[g.r.Intn(len(roles))], Val: g.r.Range(1, 2)})
+		case v < 18:
+			return mk(&NatOp{Kind: natSetWl, To: g.r.Intn(numContracts), Val: g.r.Range(0, 900)})
+		case v < 19:
+			return mk(&NatOp{Kind: natDelWl, To: g.r.Intn(numContracts)})
+		case v < 21: // Notary deposit: GAS transfer to the Notary contract
+			return mk(&NatOp{Kind: natTransfer, To: notaryAcc, Amt: []int{minDeposit, minDeposit + 10000000, 5}[g.r.Intn(3)]})
+		case v < 26: // NEO transfer (never to contract 3, which may destroy itself)
+			to := []int{0, 1, 2, 6, 7}[g.r.Intn(5)]
+			nat := &NatOp{Kind: natNeoTransfer, To: to, Amt: []int{0, 1, 2, 3, 5, 100}[g.r.Intn(6)]}
+			if to < numContracts && g.r.Bool() && x.depth > 0 {
+				nat.HasCb = true
+				y := x.sub(3)
+				y.c, y.f = to, x.f.and(flagsOf(fl))
+				nat.Cb = g.list(y)
+			}
+			return mk(nat)
+		default:
+			return mk(&NatOp{Kind: natVote, Val: g.r.Intn(3) % 2})
 		}
 	}
 }
@@ -247,14 +273,21 @@ func treeStats(o *hx.Out, l []*Node, depth int, maxDepth *int, nodes *int) {
 		case nAbort:
 			o.Count("node:abort")
 		case nNative:
-			if n.Nat.Kind == natTransfer {
+			if n.Nat.Kind == natTransfer && n.Nat.To == notaryAcc {
+				o.Count("node:notary-deposit")
+			} else if n.Nat.Kind == natTransfer {
 				o.Count("node:gas-transfer")
 				if n.Nat.HasCb {
 					o.Count("node:gas-transfer-with-callback-program")
 				}
 				treeStats(o, n.Nat.Cb, depth+1, maxDepth, nodes)
 			} else {
-				o.Count([]string{"", "node:policy-setFeePerByte", "node:policy-blockAccount", "node:policy-unblockAccount", "node:management-deploy"}[n.Nat.Kind])
+				o.Count([]string{"", "node:policy-setFeePerByte", "node:policy-blockAccount", "node:policy-unblockAccount", "node:management-deploy",
+					"node:management-update", "node:management-destroy", "node:roles-designate", "node:policy-setWhitelistFee", "node:policy-removeWhitelistFee",
+					"node:neo-transfer", "node:neo-vote"}[n.Nat.Kind])
+				if n.Nat.Kind == natNeoTransfer {
+					treeStats(o, n.Nat.Cb, depth+1, maxDepth, nodes)
+				}
 			}
 		}
 	}
